@@ -2236,6 +2236,12 @@ func (a *Authenticator) handleClientAuthentication(ctx context.Context, negotiat
 			break
 		}
 
+		// The server may only pick among the methods this client just offered; running
+		// anything else would authenticate with a method the caller never enabled.
+		if serverResponse&^availableBitmask != 0 {
+			return fmt.Errorf("server selected authentication method(s) 0x%x outside the offered set 0x%x", serverResponse, availableBitmask)
+		}
+
 		// Convert server response to method
 		selectedMethod := bitmaskToAuthMethod(serverResponse)
 		if selectedMethod == "" {
